@@ -406,7 +406,57 @@ def gen_Units():
     write("Units", body, "magpylib/_src/utility.py:_UNIT_PREFIX, get_unit_factor")
 
 
-GENERATORS = {"Const": gen_Const, "Units": gen_Units, "Defaults": gen_Defaults, "Attr": gen_Attr, "PathPad": gen_PathPad, "Exits": gen_Exits, "Ndim": gen_Ndim}
+def gen_Tol():
+    """every float literal and every integer literal above 3 (in source order) and every comparison operator of the kernel functions that are ported by hand
+    to Model/Kernels.lean, Model/Polyline.lean, Model/TrimeshSum.lean: thresholds, tolerances, series coefficients.
+    A change of any of them in the source changes this table and breaks the `decide` theorems that pin it."""
+    import ast
+    import importlib
+    import inspect
+    import textwrap
+
+    targets = [
+        ("magpylib._src.fields.field_BH_dipole", ["dipole_Hfield", "BHJM_dipole"]),
+        ("magpylib._src.fields.field_BH_sphere", ["magnet_sphere_Bfield", "BHJM_magnet_sphere"]),
+        ("magpylib._src.fields.field_BH_polyline", ["current_polyline_Hfield", "BHJM_current_polyline", "current_vertices_field"]),
+        ("magpylib._src.fields.field_BH_cuboid", ["magnet_cuboid_Bfield", "BHJM_magnet_cuboid"]),
+        ("magpylib._src.fields.field_BH_triangle", ["norm_vector", "solid_angle", "triangle_Bfield", "BHJM_triangle"]),
+        ("magpylib._src.fields.field_BH_tetrahedron", ["check_chirality", "point_inside", "BHJM_magnet_tetrahedron"]),
+        ("magpylib._src.fields.field_BH_circle", ["current_circle_Hfield", "BHJM_circle"]),
+        ("magpylib._src.fields.special_cel", ["cel0", "cel_iter0", "cel_iterv", "cel_iter", "cel"]),
+        ("magpylib._src.fields.field_BH_triangularmesh", ["mask_inside_enclosing_box", "mask_inside_trimesh", "BHJM_magnet_trimesh"]),
+        ("magpylib._src.utility", ["cart_to_cyl_coordinates", "cyl_field_to_cart"]),
+    ]
+    opname = {ast.Lt: "<", ast.LtE: "<=", ast.Gt: ">", ast.GtE: ">=", ast.Eq: "==", ast.NotEq: "!="}
+    rows = []
+    for modname, fns in targets:
+        mod = importlib.import_module(modname)
+        for fn in fns:
+            tree = ast.parse(textwrap.dedent(inspect.getsource(getattr(mod, fn))))
+            f = tree.body[0]
+            body = f.body[1:] if (f.body and isinstance(f.body[0], ast.Expr) and isinstance(getattr(f.body[0], "value", None), ast.Constant)
+                                  and isinstance(f.body[0].value.value, str)) else f.body  # skip the docstring
+            nums, cmps = [], []
+            for stmt in body:
+                for n in ast.walk(stmt):
+                    if isinstance(n, ast.Constant) and isinstance(n.value, (int, float)) and not isinstance(n.value, bool):
+                        if isinstance(n.value, float) or n.value not in (0, 1, 2, 3):  # array indices / small integer factors are left out
+                            nums.append((n.lineno, n.col_offset, repr(n.value)))
+                    if isinstance(n, ast.Compare):
+                        for o in n.ops:
+                            if type(o) in opname:
+                                cmps.append((n.lineno, n.col_offset, opname[type(o)]))
+            nums.sort()
+            cmps.sort()
+            rows.append((modname.rsplit(".", 1)[1] + "." + fn, [x[2] for x in nums], [x[2] for x in cmps]))
+    q = lambda xs: "[" + ", ".join('"' + x + '"' for x in xs) + "]"
+    lst = ",\n  ".join(f'("{name}", {q(nums)}, {q(cmps)})' for name, nums, cmps in rows)
+    body = ("namespace MagpyVerif.Gen.Tol\n\n/-- (function, numeric literals in source order, comparison operators in source order) -/\n"
+            f"def table : List (String × List String × List String) := [\n  {lst}]\n\nend MagpyVerif.Gen.Tol\n")
+    write("Tol", body, "magpylib/_src/fields/*.py (numeric literals and comparison operators of the ported kernels)")
+
+
+GENERATORS = {"Const": gen_Const, "Units": gen_Units, "Defaults": gen_Defaults, "Attr": gen_Attr, "PathPad": gen_PathPad, "Exits": gen_Exits, "Ndim": gen_Ndim, "Tol": gen_Tol}
 
 
 def main():
